@@ -133,3 +133,18 @@ class C14(PropertyCheck):
             if not impl_out.startswith("err"):
                 return "degenerate path %r not reported as an error: %s" % (path, impl_out)
         return None
+
+
+TB = ("Trusted: Coq 8.16.1 kernel (vm_compute, no native_compute), no axioms (Print Assumptions audited on every run), "
+      "ExtrOcamlBasic extraction + hand-written OCaml driver, the Rust harness and Python generators/oracles. ")
+
+MANIFEST = dict(
+    text="Theorems about an executable Gallina model of the six path localizers: the transcribed per-language push strings equal the "
+         "specification table written from the property text for all 5x8 pairs (finite proof), localize = directory part + marker + final "
+         "component on every path of plain components (any depth, any characters, trailing slash or not), single components get the marker "
+         "appended, degenerate paths are errors; model tied to /repo by exhaustive correspondence over localizers x languages x a structured path "
+         "family plus arbitrary strings (no panic), and an independent oracle table.",
+    note=TB + "Modelled, not verified: std::path::Path::parent/file_name (on plain-component paths and the strings \"\", \"/\", \"..\", \".\"); "
+              "other strings are outside the model and only checked for 'returns, no panic'. Filesystem consistency of the mapping is covered under C12/C13.",
+    technique="Coq proof (finite table by computation + list lemmas on split/join) + exhaustive extracted-model differential check",
+    ref="DESIGN.md section 5 (C14)")
